@@ -207,7 +207,7 @@ def unit_list_steps():
             yield
 
         it = iter([nxt] if nxt is not None else [])
-        I = Interp(ctx, stubs={Pm.pretty: pretty_stub, Pm.format: format_stub}, loop_specs={("pretty_list_elems", loop_ord): OneStepLoop(state)})
+        I = Interp(ctx, stubs={Pm.pretty: pretty_stub, Pm.format: format_stub}, loop_specs={("pretty_list_elems", loop_ord): OneStepLoop(state, kind="while")})
         g = run_sync(I.call(Pm.pretty_list_elems, (parent, it), {}))
         ys = []
         try:
@@ -291,7 +291,7 @@ def unit_main_steps():
                 yield
             return st
 
-        I = Interp(ctx, stubs={Pm.pretty: mk("ROW"), Pm.pretty_attrs: mk("BITS"), Pm.pretty_list_elems: mk("LIST")}, loop_specs={("unmarshal", 0): OneStepLoop({"event": ev})})
+        I = Interp(ctx, stubs={Pm.pretty: mk("ROW"), Pm.pretty_attrs: mk("BITS"), Pm.pretty_list_elems: mk("LIST")}, loop_specs={("unmarshal", 0): OneStepLoop({"event": ev}, kind="for")})
         g = run_sync(I.call(Pm.unmarshal, (src,), {}))
         ys = []
         try:
